@@ -412,7 +412,7 @@ Lemma ppk_binding h t : lenZ h = 32 -> lenZ t = 20 \/ lenZ t = 22 ->
   ppk (0 :: 32 :: h ++ lenZ t :: t) =
   if lenZ t =? 20 then Ok (mkpk BindingScriptHashTy 0 0 (AWsh 0 h) (Some (APkh t)))
   else if target_ok t then Ok (mkpk BindingScriptHashTy 0 BindingLockedPeriod (AWsh 0 h) (Some (ABind t)))
-  else Err EAddress.
+  else Err (target_err b).
 Proof.
   intros H Ht. unfold parse_pk_script_gen, get_script_info. rewrite parse_three by (assumption || lia || reflexivity).
   rewrite type_binding by assumption.
@@ -450,7 +450,7 @@ Qed.
 Theorem parse_pk_script_spec_none s : wallet_spec s = None ->
   (spec_template s = None /\ ppk s = Err (a2_err b)) \/
   (exists h t, spec_template s = Some (TBinding h t) /\ lenZ t = 22 /\ target_ok t = false /\
-               ppk s = Err EAddress).
+               ppk s = Err (target_err b)).
 Proof.
   unfold wallet_spec. destruct (spec_template s) as [t|] eqn:E.
   2:{ intros _. left. split; [reflexivity|]. apply ppk_nontemplate. assumption. }
@@ -465,7 +465,7 @@ Qed.
 
 Lemma ppk_cases s :
   (exists i, wallet_spec s = Some i /\ ppk s = Ok i) \/
-  (wallet_spec s = None /\ (ppk s = Err (a2_err b) \/ ppk s = Err EAddress)).
+  (wallet_spec s = None /\ (ppk s = Err (a2_err b) \/ ppk s = Err (target_err b))).
 Proof.
   destruct (wallet_spec s) as [i|] eqn:E.
   - left. exists i. split; [reflexivity|]. apply parse_pk_script_spec_some. assumption.
@@ -886,7 +886,7 @@ Qed.
 (* a raw 22-byte target that is not an address: the script is built and the wallet cannot read it back;
    the wallet's own path cannot produce it (BindingOutput.BindingTarget is a massutil.Address) *)
 Theorem roundtrip_binding_raw_refuted : exists h t s, lenZ h = 32 /\ lenZ t = 22 /\
-  pay_to_binding_script h t = Ok s /\ ppk s = Err EAddress.
+  pay_to_binding_script h t = Ok s /\ ppk s = Err (target_err b).
 Proof.
   exists (repeat 17 32), (repeat 34 20 ++ [5; 32]), e2_witness. repeat split; destruct b; vm_compute; reflexivity.
 Qed.
@@ -1029,14 +1029,20 @@ Proof. destruct (ppk_cases false s) as [(i & _ & H)|(_ & [H|H])]; rewrite H; dis
 
 (* ... and with the repair it is returned exactly for the classes the wallet does not read *)
 Theorem unsupported_iff_fixed s : parse_pk_script_gen true s = Err EUnsupported <->
-  (script_class s = NonStandardTy \/ script_class s = MultiSigTy \/ script_class s = NullDataTy).
+  (script_class s = NonStandardTy \/ script_class s = MultiSigTy \/ script_class s = NullDataTy \/
+   exists h t, spec_template s = Some (TBinding h t) /\ lenZ t = 22 /\ target_ok t = false).
 Proof.
   split.
   - intros H. destruct (spec_template s) as [t|] eqn:E; [|destruct (script_class_nontemplate s E) as [X|[X|X]]; auto].
-    exfalso. destruct (ppk_cases true s) as [(i & _ & H')|(Hn & _)]; [rewrite H' in H; discriminate|].
-    destruct (parse_pk_script_spec_none true s Hn) as [[Hs _]|(h & tg & _ & _ & _ & H')]; [congruence|].
-    rewrite H' in H. discriminate.
-  - apply (nonwitness_error true).
+    destruct (ppk_cases true s) as [(i & _ & H')|(Hn & _)]; [rewrite H' in H; discriminate|].
+    destruct (parse_pk_script_spec_none true s Hn) as [[Hs _]|(h & tg & Ht & Hl & Hk & H')]; [congruence|].
+    right; right; right. exists h, tg. rewrite <- E. auto.
+  - intros [X|[X|[X|(h & t & Ht & Hl & Hk)]]];
+      [apply (nonwitness_error true); auto | apply (nonwitness_error true); auto | apply (nonwitness_error true); auto |].
+    assert (wallet_spec s = None) as Hn.
+    { unfold wallet_spec. rewrite Ht. rewrite Hl. cbn [Z.eqb Pos.eqb]. rewrite Hk. reflexivity. }
+    destruct (parse_pk_script_spec_none true s Hn) as [[Hs _]|(h' & t' & _ & _ & _ & H')]; [congruence|].
+    exact H'.
 Qed.
 
 (* the three builders in one statement *)
